@@ -304,6 +304,20 @@ def shapes(tier, seed):
     for i, (lay, words) in enumerate(layouts if tier == "thorough" else layouts[:11] + layouts[13:]):
         out.append(Shape(f"trim/{i}_" + "|".join(x or "idle" for x in lay), h_trim, dict(layout=lay, words=words), modules=MODS, max_paths=64,
                          policy=dict(mod_range=(-4, 4))))
+    # wide registers: few kept qubits with labels >= 8 (orderings that depend on hashing of small integers show only there)
+    def wide(nq, kept, extra=None):
+        lay = [""] * nq
+        for q in kept:
+            lay[q] = "E"
+        for q, g in (extra or {}).items():
+            lay[q] = g
+        return lay
+    wides = [(wide(10, (2, 9)), [[(2, "Z")], [(9, "X"), (2, "Y")], [(9, "Z")]]),
+             (wide(11, (1, 3, 10), {5: "X"}), [[(1, "Z")], [(3, "X"), (10, "Z")], [(10, "Y"), (1, "X")], [(5, "Z"), (3, "Z")]]),
+             (wide(9, (1, 5, 8)), [[(8, "Z")], [(1, "X"), (5, "Y")], [(5, "Z"), (8, "X")]])]
+    for i, (lay, words) in enumerate(wides[:2] if tier == "quick" else wides):
+        out.append(Shape(f"trim/wide{i}_n{len(lay)}_" + "-".join(str(q) for q, w in enumerate(lay) if w), h_trim, dict(layout=lay, words=words),
+                         modules=MODS, max_paths=64, policy=dict(mod_range=(-4, 4))))
     out.append(Shape("canary/trim", h_trim, dict(layout=["X", "E", "E"], words=[[(0, "Z")], [(1, "Z")]], canary=True), modules=MODS, max_paths=64, canary=True))
     comp = [(1, [[], [(0, "Z")]]), (2, [[(0, "Z")], [(1, "Z")]]), (2, [[], [(0, "Z")], [(0, "Z"), (1, "Z")]]),
             (3, [[(0, "Z")], [(1, "Z"), (2, "Z")]]), (3, [[], [(2, "Z")], [(0, "Z"), (1, "Z"), (2, "Z")]]), (1, [[(0, "Z")]]),
